@@ -127,7 +127,9 @@ Norm(t, v) ==
            fl == FlatFields(rt)
            n  == MinLen(Len(fl), Len(v[3])) IN
        <<"obj", v[2], [k \in 1..n |->
-            IF fl[k].max > 1 THEN (IF v[3][k] = Nil \/ v[3][k][2] = <<>> THEN Nil ELSE <<"seq", NormSeq(fl[k].t, v[3][k][2])>>)
+            IF fl[k].max > 1 THEN (IF v[3][k] = Nil \/ v[3][k] = <<"seq", <<>>>> THEN Nil
+                                   ELSE IF v[3][k][1] # "seq" THEN v[3][k]      \* (an error marker of the driver)
+                                   ELSE <<"seq", NormSeq(fl[k].t, v[3][k][2])>>)
             ELSE Norm(fl[k].t, v[3][k])]>>
 \* what is left of a value when only its DECLARED class is transmitted (polymorphism disabled)
 RECURSIVE Proj(_, _)
@@ -138,7 +140,9 @@ Proj(t, v) ==
   ELSE v
 \* arguments as delivered: one per declared argument
 NormArgs(c, vs) == [k \in 1..Len(c.args) |->
-      IF c.args[k].max > 1 THEN (IF vs[k] = Nil \/ vs[k][2] = <<>> THEN Nil ELSE <<"seq", NormSeq(c.args[k].t, vs[k][2])>>)
+      IF c.args[k].max > 1 THEN (IF vs[k] = Nil \/ vs[k] = <<"seq", <<>>>> THEN Nil
+                                 ELSE IF vs[k][1] # "seq" THEN vs[k]
+                                 ELSE <<"seq", NormSeq(c.args[k].t, vs[k][2])>>)
       ELSE Norm(c.args[k].t, vs[k])]
 
 \* token equality: attribute tokens are equal when they carry the same SET of (name, text) pairs
